@@ -411,6 +411,44 @@ def vec_getitem(ctx, a, idx):
     raise Unsupported("Vec index %r" % (idx,))
 
 
+def cxpart_setitem(ctx, a, part, idx, val, op=None):
+    """a.real[idx] (op)= val  /  a.imag[idx] (op)= val : update one component of the selected elements in place"""
+    if not is_scalar(val):
+        raise Unsupported("component update with a non-scalar value")
+
+    def upd(e, m):
+        c = e if isinstance(e, Cx) else Cx(e, 0)
+        cur = c.re if part == "real" else c.im
+        new = scalar_binop(op, cur, val) if op else val
+        new = z_ite(m, new, cur) if m is not True else new
+        return Cx(new, c.im) if part == "real" else Cx(c.re, new)
+    if isinstance(a, Vec) and a.ndim == 1:
+        if isinstance(idx, Vec) and idx.shape == a.shape:
+            a.data = [upd(e, m) for e, m in zip(a.data, idx.data)]
+            return
+        if isinstance(idx, int):
+            i = norm_index(ctx, idx, a.shape[0])
+            a.data[i] = upd(a.data[i], True)
+            return
+        if isinstance(idx, SliceVal) and idx.lo is None and idx.hi is None and idx.step is None:
+            a.data = [upd(e, True) for e in a.data]
+            return
+    if isinstance(a, SymArr):
+        old = a.elem
+        if isinstance(idx, SymArr) and idx.kind == "bool":
+            same_len(ctx, a.n, idx.n)
+            me = idx.elem
+            a.elem = lambda i: upd(old(i), me(i))
+            a.kind = "complex"
+            return
+        if isinstance(idx, int) or is_z3(idx):
+            k = norm_index(ctx, idx, a.n)
+            a.elem = lambda i: upd(old(i), num_cmp("==", i, k))
+            a.kind = "complex"
+            return
+    raise Unsupported("component update %r[%r]" % (a, idx))
+
+
 def arr_setitem(ctx, a, idx, val, op=None):
     """a[idx] = val   (or a[idx] op= val)"""
     def comb(old, new):
